@@ -3045,15 +3045,14 @@ SDgetdimstrs(int32 id, /* IN:  dataset ID */
             /* eliminate vars with rank > 1, coord vars only have rank 1 */
             if ((*dp)->assoc->count == 1) {
                 if (namelen == (*dp)->name->len && strncmp(name, (*dp)->name->values, strlen(name)) == 0) {
-                    /* because a dim was given, make sure that this is a coord var */
-                    /* if it is an SDS, the function will fail */
-                    if ((*dp)->var_type == IS_SDSVAR) {
-                        HGOTO_ERROR(DFE_ARGS, FAIL);
-                    }
+                    /* because a dim was given, make sure that this is a coord var;
+                       a one-dimensional SDS that happens to have the name of the
+                       dimension is not the dimension's variable: skip it, as
+                       SDsetdimstrs and SDdiminfo do */
                     /* only proceed if this variable is a coordinate var or when
                     its status is unknown due to its being created prior to
                     the fix of bugzilla 624 - BMR - 05/14/2007 */
-                    else
+                    if ((*dp)->var_type != IS_SDSVAR)
                     /* i.e., (*dp)->var_type == IS_CRDVAR ||
                         (*dp)->var_type == UNKNOWN) */
                     {
